@@ -33,6 +33,7 @@ Section C05.
      any order, leaves it with exactly the next round appended *)
   Theorem C05_node_round : forall own_psig s hb rho ps,
     ready s -> head s = hb -> rho <> b_round hb ->
+    b_round hb + 1 <= current_round (s_now s) (c_period C) (c_genesis C) ->   (* the round's time has come *)
     let own := own_psig (g_poly (s_grp s)) (b_round hb + 1) (b_sig hb) in
     vpart (g_poly (s_grp s)) (b_round hb + 1) (b_sig hb) own = true ->
     (forall sg, In sg ps -> good_partial C idx_of vpart s hb sg) -> NoDup (map idx_of ps) ->
@@ -46,7 +47,7 @@ Section C05.
   Qed.
 
   (* the system: for ALL n, thresholds, groups and k, from an aligned state (every honest node
-     running on the same head, clocks not behind round hb+k) k exchanges among at least a
+     running on the same head, the time of round hb+k has come on every clock) k exchanges among at least a
      threshold of honest nodes make EVERY node append the SAME k verified beacons, of rounds
      hb+1 .. hb+k in this order, none skipped -- and the state is aligned again *)
   Theorem C05_system_rounds : forall k G nodes hb rmax,
@@ -62,12 +63,14 @@ Section C05.
     exact (k_rounds C idx_of vpart recov vrec recov_complete limit_nonneg vrec_unchained vrec_unique).
   Qed.
 
-  (* every tick re-broadcasts on top of the stored head; a gap triggers a sync with the group *)
+  (* every tick re-broadcasts on top of the stored head, as soon as that round's time has come on
+     the node's clock; a gap triggers a sync with the group in any case *)
   Theorem C05_tick_rebroadcasts : forall own_psig s rho sync,
     s_running s = true ->
-    exists p sg o', snd (step C idx_of vpart recov vrec own_psig s (ETick rho sync))
-                    = OEmit (emit_round rho (head s)) p sg (s_now s) :: o' /\
-      (b_round (head s) + 1 < rho -> In (OSyncReq rho) o').
+    (emit_round rho (head s) <= current_round (s_now s) (c_period C) (c_genesis C) ->
+     exists p sg o', snd (step C idx_of vpart recov vrec own_psig s (ETick rho sync))
+                     = OEmit (emit_round rho (head s)) p sg (s_now s) :: o') /\
+    (b_round (head s) + 1 < rho -> In (OSyncReq rho) (snd (step C idx_of vpart recov vrec own_psig s (ETick rho sync)))).
   Proof. intros own_psig. exact (tick_rebroadcasts C idx_of vpart recov vrec own_psig). Qed.
 
   (* a node that was down rejoins by syncing: an honest peer's stream is stored completely (up
